@@ -4,7 +4,7 @@
    the whole committee's execution; leader rotation.  The recovery claim from every reachable state
    (first sentence) is kept visible as a statement; it is explored, not proved (DESIGN.md). *)
 From Coq Require Import List NArith ZArith Bool.
-From SSV Require Import Qbft.Model Qbft.Controller Qbft.Liveness Qbft.SyncRound Qbft.SyncGeneric Qbft.RecoverGeneric.
+From SSV Require Import Qbft.Model Qbft.Controller Qbft.Liveness Qbft.SyncRound Qbft.SyncGeneric Qbft.RecoverGeneric Qbft.RecoverPrepared.
 Import ListNotations.
 Local Open Scope N_scope.
 
@@ -128,6 +128,37 @@ Example C07_recovery_example :
 Proof.
   cbv zeta. repeat split; try (vm_compute; reflexivity).
   - vm_compute. intros H. repeat (destruct H as [H|H]; [discriminate H|]). exact H.
+  - repeat (constructor; [intros H; simpl in H; repeat (destruct H as [H|H]; [discriminate H|]); exact H|]).
+    constructor.
+  - intros y Hy. vm_compute. simpl in Hy. tauto.
+Qed.
+
+(* A second continuation, also for every committee: round 1 PREPARED the leader's value at every live
+   operator and then stalled (no commit delivered).  The round changes carry the preparation with its
+   prepare quorum, the leader of round 2 has to re-propose that value, and with timely delivery every
+   live operator decides it in round 2 - the value that may already have been decided elsewhere. *)
+Theorem C07_recovery_from_prepared_round : forall (c : cfg) (h ld1 ld2 : N) (live : list N),
+  NoDup (committee c) -> ~ In 0 (committee c) -> NoDup live -> (forall y, In y live -> In y (committee c)) ->
+  proposer c h FIRST_ROUND = Some ld1 -> In ld1 live ->
+  proposer c h R2 = Some ld2 -> In ld2 live ->
+  value_check c (start_value ld1) = true ->
+  1 <= quorum c -> quorum c <= N.of_nat (length live) -> 1 <= partial_quorum c ->
+  forall i, In i live ->
+  exists s bs,
+    run (with_me c i) (new_instance h) (prepared_ops c h ld1 ld2 live i) = (s, bs) /\
+    s_decided s = true /\ s_dvalue s = start_value ld1 /\ s_round s = R2 /\
+    bcasts bs = prepared_bcasts c h ld1 ld2 live i.
+Proof. exact recover_prepared_round. Qed.
+Print Assumptions C07_recovery_from_prepared_round.
+
+(* the hypotheses are satisfiable: 4 operators at height 0, operator 4 silent, leaders 1 and 2 live *)
+Example C07_recovery_prepared_example :
+  let c := sync_cfg 4 in
+  NoDup [1; 2; 3] /\ (forall y, In y [1; 2; 3] -> In y (committee c)) /\
+  proposer c 0 FIRST_ROUND = Some 1 /\ proposer c 0 R2 = Some 2 /\
+  value_check c (start_value 1) = true /\ quorum c = 3 /\ partial_quorum c = 2.
+Proof.
+  cbv zeta. repeat split; try (vm_compute; reflexivity).
   - repeat (constructor; [intros H; simpl in H; repeat (destruct H as [H|H]; [discriminate H|]); exact H|]).
     constructor.
   - intros y Hy. vm_compute. simpl in Hy. tauto.
